@@ -65,7 +65,7 @@ fn main() {
                     let o = e.to_cmdline_lossy();
                     let d = format!("{:?}", e);
                     let x = format!("Exec {{ {} }}", o);
-                    (o, d, x)
+                    (o, d, x, format!("{:#?}", e))
                 } else {
                     let mut it = stages.iter();
                     let mut p: Pipeline = exec_of(it.next().unwrap()) | exec_of(it.next().unwrap());
@@ -75,14 +75,20 @@ fn main() {
                     let d = format!("{:?}", p);
                     let o = d.strip_prefix("Pipeline { ").and_then(|x| x.strip_suffix(" }")).unwrap_or("\u{0}").to_string();
                     let x = d.clone();
-                    (o, d, x)
+                    (o, d, x, format!("{:#?}", p))
                 });
                 std::panic::set_hook(hook);
                 if odd {
                     std::env::remove_var("VERIF_ODD_VAR");
                 }
                 // (a rendering that panics has produced nothing a shell could read back)
-                let (out, dbg, dbg_expected) = rendered.unwrap_or(("\u{0}".to_string(), "panic".to_string(), "".to_string()));
+                let (out, dbg, dbg_expected, alt) =
+                    rendered.unwrap_or(("\u{0}".to_string(), "panic".to_string(), "".to_string(), "\u{0}".to_string()));
+                // the alternate form ({:#?}, what dbg!() prints): whatever stands between the outer braces
+                let alt_inner = match (alt.find('{'), alt.rfind('}')) {
+                    (Some(a), Some(b)) if a < b => alt[a + 1..b].trim().to_string(),
+                    _ => "\u{0}".to_string(),
+                };
                 // ask the real shell (only when the program is our reporting child)
                 let mut sh_argvs: Vec<Value> = vec![];
                 let mut asked = false;
@@ -106,7 +112,8 @@ fn main() {
                     }
                 }
                 let mut ev = json!({"e":"shcase","id":v["id"],"stages":v["stages"],"out":cps(&out),"debug_matches":dbg == dbg_expected,
-                    "asked_sh":asked,"sh_runs":sh_argvs.len(),"sh_argv": sh_argvs.get(0).cloned().unwrap_or(json!([]))});
+                    "asked_sh":asked,"sh_runs":sh_argvs.len(),"sh_argv": sh_argvs.get(0).cloned().unwrap_or(json!([])),
+                    "alt":cps(&alt_inner)});
                 if v["env"].is_array() {
                     ev["env"] = json!(v["env"].as_array().unwrap().len());
                 }
